@@ -4,6 +4,7 @@
  "file": "expr.c", "function": "mkbinaryexpr",
  "also_functions": ["commonreal", "exprconvert", "exprpromote", "bitfieldwidth", "nullpointer", "mkexpr", "mkconstexpr", "typecommonreal", "typepromote", "typecompatible", "typerank"],
  "properties": {"C05": "contract", "C19": "safety"},
+ "c19_quick": false,
  "mode": "harness",
  "kind": "proof-const-unwind",
  "unwindset": ["typecompatible.0:1", "typecompatible:3", "mkbinaryexpr:2", "recorded.0:9", "tysel.0:27"],
